@@ -41,8 +41,11 @@ func (o goStructObject) getValue(name string) reflect.Value {
 
 	if validGoStructName(name) {
 		// Do not reveal hidden or unexported fields.
-		if field := reflect.Indirect(o.value).FieldByName(name); field.IsValid() {
-			return field
+		// A field promoted through a nil embedded pointer does not exist yet: FieldByName would panic.
+		if sf, ok := reflect.Indirect(o.value).Type().FieldByName(name); ok {
+			if field, err := reflect.Indirect(o.value).FieldByIndexErr(sf.Index); err == nil {
+				return field
+			}
 		}
 
 		if method := o.value.MethodByName(name); method.IsValid() {
